@@ -236,7 +236,7 @@ func init() {
 				}
 			}
 			rng := l.Rng()
-			n := l.N(400, 6000)
+			n := l.N(400, 30000)
 			for i := 0; i < n; i++ {
 				s := randTblSpec(rng, rng.Intn(2) == 0)
 				cfg := randIngCfg(rng, s.Rows)
